@@ -367,3 +367,5 @@ func EnvInt(name string, def int) int {
 	}
 	return def
 }
+
+func readFile(p string) ([]byte, error) { return os.ReadFile(p) }
